@@ -36,7 +36,7 @@ func newCommandStorer() *commandStorer {
 
 func (storer *commandStorer) call(commandID string, args []*variable.Value) <-chan error {
 	command, ok := storer.commandsByID[commandID]
-	if !ok {
+	if !ok || command == nil { // AddCommand(commandID, nil) registers nothing that can be called
 		errChan := make(chan error, 1)
 		errChan <- fmt.Errorf("unknown command")
 		return errChan
